@@ -3,6 +3,7 @@ pub mod c07;
 pub mod c08;
 pub mod c09;
 pub mod c10;
+pub mod c11;
 pub mod c13;
 pub mod c14;
 pub mod c15;
